@@ -185,6 +185,24 @@ pub fn run(prop: &str, tier: Tier) -> i32 {
         };
         fill_report(&mut rep, plan.run(), &format!("one representative per isomorphism class of 6-argument frameworks with <= {} attacks ({}), CaDiCaL{}", k, n_classes, if thorough { " and D<=1" } else { "" }));
     }
+    // (2b'') composition family: irregular frameworks of up to 9 arguments glued from small pieces
+    {
+        let fam = crate::universe::composition_family(if thorough { 1 } else { 0 });
+        let n_fam = fam.len();
+        let plan = SweepPlan {
+            graphs: fam.into_iter().map(|(n, g)| (format!("comp:{}", n), g)).collect(),
+            presentations: vec![Presentation::Compact],
+            kinds: kinds.clone(),
+            sems: all_sems(),
+            certs: certs.clone(),
+            lists: ArgLists::Single,
+            with_lib_default: false,
+            cfgs: vec![],
+            with_cadical: true,
+            prop_of,
+        };
+        fill_report(&mut rep, plan.run(), &format!("composition family: {} frameworks of <= 9 arguments glued from the connected classes of U(<=3) (pairs{} and triples over a 12-piece menu), CaDiCaL", n_fam, if thorough { " with every bridging attack" } else { " with first-to-first bridging" }));
+    }
     // (2c) quick: one framework per isomorphism class of U(4), D <= 1, and CaDiCaL
     if !thorough {
         let plan = SweepPlan {
